@@ -216,6 +216,15 @@ func checkC01(P *Program, r *Result, tier string) {
 		}
 	}
 	r.Explanation = expl + " STREAM (the stream reader/writer deliver or emit exactly the bytes requested, in order, under any fragmentation: the bufiox rules of C04 and C05 are re-checked here) — " + e4 + " — " + r.Explanation
+	{
+		var fns []*ssa.Function
+		for _, fn := range pkgFuncs(P, relThrift) {
+			if len(fn.Params) > 0 && (typeIsPtrTo(fn.Params[0].Type(), "BufferWriter") || typeIsPtrTo(fn.Params[0].Type(), "BufferReader")) && fn.Signature.Recv() != nil {
+				fns = append(fns, fn)
+			}
+		}
+		errDisciplineRule(P, r, "ERR-USED", fns)
+	}
 	r.assume("int is 64 bits wide (sign/zero extension of 32-bit wire sizes is compared at that width)")
 	r.assume("the in-place writers are given a buffer with room for the advertised length (copy() then copies len(v) bytes); the stream reader/writer halves rest on the bufiox rules (C04/C05) that are re-run as part of this check")
 	r.assume("unsafex.StringToBinary/BinaryToString, string↔[]byte conversions and spanCache.Copy preserve content (C16, C19)")
@@ -553,6 +562,16 @@ func checkC12(P *Program, r *Result, tier string) {
 			}
 			r.add("EXC-BRANCH", shortName(mm), "size", "the buffer has exactly MessageBeginLength(method) + msg.BLength() bytes", P.pos(instrPos(mk)), okSz, "")
 		}
+	}
+	// no error of a nested read or write is dropped by the envelope functions
+	{
+		var fns []*ssa.Function
+		for _, n := range []string{"MarshalFastMsg", "UnmarshalFastMsg", "FastMarshal", "FastUnmarshal"} {
+			if f := P.Func(relThrift, n); f != nil {
+				fns = append(fns, f)
+			}
+		}
+		errDisciplineRule(P, r, "TRUNCATED", fns)
 	}
 	// ---- ACCESSORS ----
 	for _, t := range []struct{ m, f string }{{"TypeId", "t"}, {"TypeID", "t"}, {"Msg", "m"}} {
